@@ -189,6 +189,19 @@ CHECKS["C08"] = dict(
               "result from observed leaf results",
 )
 
+CHECKS["C09"] = dict(
+    text="MC_Machine checks the frame rule as an action property on every element step of every small program "
+         "(everything below the element's table arity is unchanged). The real template of every key of the element "
+         "table, and of every modifier applied to every key, is executed on a stack of fresh sentinel objects plus "
+         "arguments of the table arity; identities and values of all entries before/after are logged and TLC evaluates "
+         "Prop_C09 with the per-modifier Touched bound and the whole-stack exemption set of the specification.",
+    note="Trusted: runtime table arity; exemption set {W ^ ! „ ‟ Ȯ † ¨ẇ, Ė on a string}; argument tuples for which "
+         "the element raises are inapplicable (counted, not judged).",
+    ref="DESIGN.md section 6 C09",
+    technique="TLA+ action property (FrameRule on VyMachine) model-checked by TLC + TLC evaluation of the frame "
+              "predicate on logged stack identities for every table key and modifier",
+)
+
 NOT_APPLICABLE = {}
 
 DEFAULT_NA = ("check under construction in this round; it will be claimed when its TLA+ module and "
